@@ -228,6 +228,8 @@ func (r *DeviceLocal) AddEntity(entity api.EntityLocalInterface) {
 
 	r.mux.Unlock()
 
+	verifPoint("AddEntity.appended")
+
 	r.notifySubscribersOfEntity(entity, model.NetworkManagementStateChangeTypeAdded)
 }
 
@@ -239,6 +241,8 @@ func (r *DeviceLocal) RemoveEntity(entity api.EntityLocalInterface) {
 	if heartbeatMgr := entity.HeartbeatManager(); heartbeatMgr != nil {
 		heartbeatMgr.StopHeartbeat()
 	}
+
+	verifPoint("RemoveEntity.cleaned")
 
 	r.mux.Lock()
 
